@@ -101,7 +101,9 @@ class World:
         return tape.weighted(pairs, label)
 
 
-FILTER_LISTS = [["ampdel"], ["cn"], ["ci", "cn"], ["sem", "ampdel"], ["ci"], ["ci", "sem", "cn"]]
+FILTER_LISTS = [["ampdel"], ["cn"], ["ci", "cn"], ["sem", "ampdel"], ["ci"], ["ci", "sem", "cn"],
+                ["ampdel", "cn"], ["cn", "ampdel"], ["ci", "cn", "ampdel"]]
+IGNORE_LISTS = [["CGH"], ["-", ".", "CGH"], ("-", ".", "CGH"), []]
 LOC_STATS = [["mean"], ["median", "mode"], ["mean", "median", "p_ttest"]]
 SPREAD_STATS = [["stdev"], ["mad", "iqr"], ["sem", "bivar", "mse"]]
 INTERVAL_STATS = [["ci"], ["pi"], ["ci", "pi"]]
@@ -112,7 +114,7 @@ def build_world(tape, tier):
 
     objs, info = GW.gen_world(tape, tier)
     W = World()
-    for name in ("baits", "access", "tbins", "tcov", "acov", "ref", "cnr", "cns", "cns_stats"):
+    for name in ("baits", "access", "tbins", "tcov", "acov", "ref", "cnr", "cns", "cns_stats", "varr"):
         kind = {"tbins": "targets", "cns_stats": "cns"}.get(name, name)
         W.add(kind, objs[name], "initial", name)
     for i, fl in enumerate(FILTER_LISTS):
@@ -123,6 +125,13 @@ def build_world(tape, tier):
         W.add("spread_stats", list(sl), "initial", f"spread{i}")
     for i, sl in enumerate(INTERVAL_STATS):
         W.add("interval_stats", list(sl), "initial", f"interval{i}")
+    for i, il in enumerate(IGNORE_LISTS):
+        W.add("ignore", type(il)(il), "initial", f"ignore{i}")
+    from skgenome import combiners
+    for i, cd in enumerate([{"gene": combiners.first_of}, {"gene": combiners.last_of, "weight": max},
+                            {"strand": combiners.first_of}]):
+        W.add("combine", dict(cd), "initial", f"combine{i}")
+    W.add("cnr", objs["cnr_clean"], "initial", "cnr_clean")
     W.add("sizes", dict(info["chrom_sizes"]), "initial", "chrom_sizes")
     W.add("thresholds", [-1.1, -0.25, 0.2, 0.7], "initial", "thresholds")
     return W, info
@@ -151,30 +160,44 @@ def ch_antitarget(W, t, info):
     tg = W.pick(t, "targets", label="anti.targets")
     acc = W.pick(t, "access", label="anti.access") if t.chance(2, 3, "anti.useaccess") else None
     return [tg] + ([acc] if acc else []), {"avg": t.choice([150000, 30000, 60000], "anti.avg"),
+                                            "min": t.choice([None, None, 5000], "anti.min"),
                                             "access": acc is not None}
 
 
 def run_antitarget(o, p, procs):
     from cnvlib import antitarget
-    return antitarget.do_antitarget(o[0], o[1] if p["access"] else None, avg_bin_size=p["avg"])
+    return antitarget.do_antitarget(o[0], o[1] if p["access"] else None, avg_bin_size=p["avg"],
+                                    min_bin_size=p.get("min"))
 
 
 def ch_fix(W, t, info):
     return [W.pick(t, "tcov", label="fix.t"), W.pick(t, "acov", label="fix.a"), W.pick(t, "ref", label="fix.r")], {
-        "gc": t.chance(2, 3, "fix.gc"), "edge": t.chance(2, 3, "fix.edge"), "rmask": t.chance(2, 3, "fix.rmask")}
+        "gc": t.chance(2, 3, "fix.gc"), "edge": t.chance(2, 3, "fix.edge"), "rmask": t.chance(2, 3, "fix.rmask"),
+        "parx": t.choice([None, None, "grch38"], "fix.parx")}
 
 
 def run_fix(o, p, procs):
     from cnvlib import fix
-    return fix.do_fix(o[0], o[1], o[2], do_gc=p["gc"], do_edge=p["edge"], do_rmask=p["rmask"])
+    return fix.do_fix(o[0], o[1], o[2], p.get("parx"), do_gc=p["gc"], do_edge=p["edge"], do_rmask=p["rmask"])
 
 
 def ch_segment(W, t, info):
-    c = W.pick(t, "cnr", label="seg.cnr")
-    return [c], {"method": t.weighted([("haar", 4), ("none", 2), ("hmm", 1), ("hmm-tumor", 1),
+    nofilter = t.chance(1, 4, "seg.nofilter")
+    if nofilter:
+        c = W.pick(t, "cnr", pred=lambda e: e.name == "cnr_clean", label="seg.cnr")
+    else:
+        c = W.pick(t, "cnr", label="seg.cnr")
+    ents = [c]
+    use_vars = t.chance(1, 5, "seg.variants")
+    if use_vars:
+        ents.append(W.pick(t, "varr", label="seg.varr"))
+    return ents, {"variants": use_vars, "method": t.weighted([("haar", 4), ("none", 2), ("hmm", 1), ("hmm-tumor", 1),
                                        ("hmm-germline", 1)], "seg.method"),
-                 "skip_low": t.chance(1, 2, "seg.low"), "skip_outliers": t.choice([10, 0, 3], "seg.out"),
-                 "min_weight": t.choice([0, 0.3], "seg.minw"),
+                 "skip_low": t.chance(1, 2, "seg.low") and not nofilter,
+                 "skip_outliers": 0 if nofilter else t.choice([10, 0, 3], "seg.out"),
+                 "min_weight": 0 if nofilter else t.choice([0, 0.3], "seg.minw"),
+                 "threshold": t.choice([None, None, 0.01], "seg.thr"),
+                 "parx": t.choice([None, None, "grch38"], "seg.parx"),
                  "processes": t.choice([2, 1, 3, 16], "seg.procs")}
 
 
@@ -182,7 +205,10 @@ def run_segment(o, p, procs):
     from cnvlib import segmentation
     return segmentation.do_segmentation(
         o[0], p["method"], skip_low=p["skip_low"], skip_outliers=p["skip_outliers"],
-        min_weight=p["min_weight"], processes=procs if procs else p["processes"])
+        min_weight=p["min_weight"], processes=procs if procs else p["processes"],
+        variants=o[1] if p.get("variants") else None,
+        threshold=p.get("threshold") if p["method"] == "haar" else None,
+        diploid_parx_genome=p.get("parx"))
 
 
 def ch_segmetrics(W, t, info):
@@ -234,7 +260,10 @@ def ch_call(W, t, info):
          "ploidy": t.choice([2, 3, 4], "call.ploidy"),
          "purity": t.choice([None, 0.7, 0.35, 1.0], "call.purity"),
          "hapx": t.chance(1, 2, "call.hapx"), "female": info["sample_female"],
-         "filters": False, "thresholds": False}
+         "parx": t.choice([None, None, "grch38"], "call.parx"),
+         "filters": False, "thresholds": False, "variants": t.chance(1, 3, "call.variants")}
+    if p["variants"]:
+        ents.append(W.pick(t, "varr", label="call.varr"))
     if t.chance(2, 3, "call.usefilters"):
         f = W.pick(t, "filters", pred=ok, label="call.filters")
         if f is not None and p["method"] != "none":
@@ -249,13 +278,14 @@ def ch_call(W, t, info):
 def run_call(o, p, procs):
     from cnvlib import call
     rest = list(o[1:])
+    variants = rest.pop(0) if p.get("variants") else None
     filters = rest.pop(0) if p["filters"] else None
     kw = {}
     if p["thresholds"]:
         kw["thresholds"] = rest.pop(0)
-    return call.do_call(o[0], None, method=p["method"], ploidy=p["ploidy"], purity=p["purity"],
+    return call.do_call(o[0], variants, method=p["method"], ploidy=p["ploidy"], purity=p["purity"],
                         is_haploid_x_reference=p["hapx"], is_sample_female=p["female"],
-                        filters=filters, **kw)
+                        diploid_parx_genome=p.get("parx"), filters=filters, **kw)
 
 
 def ch_genemetrics(W, t, info):
@@ -264,7 +294,8 @@ def ch_genemetrics(W, t, info):
     p = {"segments": t.chance(1, 2, "gm.segs"), "threshold": t.choice([0.2, 0.05, 0.5], "gm.thr"),
          "min_probes": t.choice([3, 1], "gm.minp"), "skip_low": t.chance(1, 2, "gm.low"),
          "hapx": t.chance(1, 2, "gm.hapx"),
-         "female": t.choice([None, True, False], "gm.female")}
+         "female": t.choice([None, True, False], "gm.female"),
+         "parx": t.choice([None, None, "grch38"], "gm.parx")}
     if p["segments"]:
         ents.append(W.pick(t, "cns", label="gm.cns"))
     return ents, p
@@ -274,7 +305,8 @@ def run_genemetrics(o, p, procs):
     from cnvlib import reports
     return reports.do_genemetrics(o[0], o[1] if p["segments"] else None, threshold=p["threshold"],
                                   min_probes=p["min_probes"], skip_low=p["skip_low"],
-                                  is_haploid_x_reference=p["hapx"], is_sample_female=p["female"])
+                                  is_haploid_x_reference=p["hapx"], is_sample_female=p["female"],
+                                  diploid_parx_genome=p.get("parx"))
 
 
 def ch_breaks(W, t, info):
@@ -324,18 +356,20 @@ def ch_export_bed(W, t, info):
     return [W.pick(t, "cns", label="xb.cns")], {
         "ploidy": t.choice([2, 3], "xb.ploidy"), "hapx": t.chance(1, 2, "xb.hapx"),
         "female": info["sample_female"], "label": t.choice([None, "lbl"], "xb.label"),
-        "show": t.choice(["ploidy", "variant", "all"], "xb.show")}
+        "show": t.choice(["ploidy", "variant", "all"], "xb.show"),
+        "parx": t.choice([None, None, "grch38"], "xb.parx")}
 
 
 def run_export_bed(o, p, procs):
     from cnvlib import export
-    return export.export_bed(o[0], p["ploidy"], p["hapx"], None, p["female"], p["label"], p["show"])
+    return export.export_bed(o[0], p["ploidy"], p["hapx"], p.get("parx"), p["female"], p["label"], p["show"])
 
 
 def ch_export_vcf(W, t, info):
     ents = [W.pick(t, "cns", label="xv.cns")]
     p = {"ploidy": t.choice([2, 3], "xv.ploidy"), "hapx": t.chance(1, 2, "xv.hapx"),
          "female": info["sample_female"], "cnr": t.chance(1, 2, "xv.cnr"),
+         "parx": t.choice([None, None, "grch38"], "xv.parx"),
          "sample_id": t.choice([None, "SID"], "xv.sid")}
     if p["cnr"]:
         ents.append(W.pick(t, "cnr", label="xv.cnrarg"))
@@ -344,7 +378,7 @@ def ch_export_vcf(W, t, info):
 
 def run_export_vcf(o, p, procs):
     from cnvlib import export
-    header, body = export.export_vcf(o[0], p["ploidy"], p["hapx"], None, p["female"], p["sample_id"],
+    header, body = export.export_vcf(o[0], p["ploidy"], p["hapx"], p.get("parx"), p["female"], p["sample_id"],
                                      o[1] if p["cnr"] else None)
     header = "\n".join(ln for ln in header.split("\n") if not ln.startswith("##fileDate"))
     return header, body
@@ -393,19 +427,30 @@ def _ga_pick(W, t, label):
 
 
 def ch_merge(W, t, info):
-    return [_ga_pick(W, t, "mg.arg")], {"bp": t.choice([0, 1, 500, 5000], "mg.bp")}
+    ents = [_ga_pick(W, t, "mg.arg")]
+    p = {"bp": t.choice([0, 1, 500, 5000], "mg.bp"), "stranded": t.chance(1, 3, "mg.stranded"),
+         "combine": t.chance(1, 3, "mg.combine")}
+    if p["combine"]:
+        ents.append(W.pick(t, "combine", label="mg.cmb"))
+    return ents, p
 
 
 def run_merge(o, p, procs):
-    return o[0].merge(bp=p["bp"])
+    return o[0].merge(bp=p["bp"], stranded=p.get("stranded", False),
+                      combine=o[1] if p.get("combine") else None)
 
 
 def ch_flatten(W, t, info):
-    return [_ga_pick(W, t, "fl.arg")], {}
+    ents = [_ga_pick(W, t, "fl.arg")]
+    p = {"combine": t.chance(1, 2, "fl.combine"),
+         "split": t.choice([None, None, ["gene"]], "fl.split")}
+    if p["combine"]:
+        ents.append(W.pick(t, "combine", label="fl.cmb"))
+    return ents, p
 
 
 def run_flatten(o, p, procs):
-    return o[0].flatten()
+    return o[0].flatten(combine=o[1] if p.get("combine") else None, split_columns=p.get("split"))
 
 
 def ch_subtract(W, t, info):
@@ -447,19 +492,32 @@ def run_resize(o, p, procs):
 
 
 def ch_by_arm(W, t, info):
-    return [W.pick(t, "cnr", "cns", "targets", "tcov", label="ba.arg")], {}
+    return [W.pick(t, "cnr", "cns", "targets", "tcov", label="ba.arg")], {
+        "gap": t.choice([1e5, 1e5, 5e4, 2e4], "ba.gap"), "bins": t.choice([50, 50, 5, 20], "ba.bins")}
 
 
 def run_by_arm(o, p, procs):
-    return [(c, a) for c, a in o[0].by_arm()]
+    return [(c, a) for c, a in o[0].by_arm(min_gap_size=p.get("gap", 1e5), min_arm_bins=p.get("bins", 50))]
 
 
 def ch_by_gene(W, t, info):
-    return [W.pick(t, "cnr", "tcov", label="bg.arg")], {}
+    ents = [W.pick(t, "cnr", "tcov", label="bg.arg")]
+    p = {"ignore": t.chance(1, 2, "bg.ignore"),
+         "how": t.choice(["by_gene", "squash_genes", "gene_intervals"], "bg.how")}
+    if p["ignore"]:
+        ents.append(W.pick(t, "ignore", label="bg.ign"))
+    return ents, p
 
 
 def run_by_gene(o, p, procs):
-    return [(g, a) for g, a in o[0].by_gene()]
+    kw = {"ignore": o[1]} if p.get("ignore") else {}
+    how = p.get("how", "by_gene")
+    if how == "squash_genes":
+        return o[0].squash_genes(**kw)
+    if how == "gene_intervals":
+        from cnvlib import reports
+        return reports.get_gene_intervals(o[0], **kw)
+    return [(g, a) for g, a in o[0].by_gene(**kw)]
 
 
 def ch_shuffle(W, t, info):
@@ -472,6 +530,128 @@ def run_shuffle(o, p, procs):
     shuffled = c.copy()
     c.sort()
     return order, shuffled, c
+
+
+# ---- array methods beyond the quantifier's list ("every ... array method") and the
+# ---- variant-driven steps ------------------------------------------------------
+
+
+def ch_cna_method(W, t, info):
+    which = t.choice(["smooth_log2", "residuals", "squash_genes", "drop_low_coverage", "guess_xx",
+                      "shift_xx", "expect_flat_log2", "compare_sex", "autosomes", "by_chromosome",
+                      "drop_extra_columns", "sort_columns", "add_concat", "nexus_basic"], "cm.which")
+    ents = [W.pick(t, "cnr", "tcov", "cns", label="cm.arg")]
+    p = {"which": which, "hapx": t.chance(1, 2, "cm.hapx"),
+         "parx": t.choice([None, "grch38"], "cm.parx"), "segments": False}
+    if which == "residuals" and t.chance(2, 3, "cm.segs"):
+        ents.append(W.pick(t, "cns", label="cm.cns"))
+        p["segments"] = True
+    if which == "add_concat":
+        ents.append(W.pick(t, "cnr", "tcov", "acov", label="cm.other"))
+    return ents, p
+
+
+def run_cna_method(o, p, procs):
+    a, w = o[0], p["which"]
+    if w == "smooth_log2":
+        return a.smooth_log2()
+    if w == "residuals":
+        return a.residuals(o[1] if p["segments"] else None)
+    if w == "squash_genes":
+        return a.squash_genes()
+    if w == "drop_low_coverage":
+        return a.drop_low_coverage()
+    if w == "guess_xx":
+        return a.guess_xx(p["hapx"], p["parx"], verbose=False)
+    if w == "shift_xx":
+        return a.shift_xx(p["hapx"], None, p["parx"])
+    if w == "expect_flat_log2":
+        return a.expect_flat_log2(p["hapx"], p["parx"])
+    if w == "compare_sex":
+        return a.compare_sex_chromosomes(p["hapx"], p["parx"])
+    if w == "autosomes":
+        return a.autosomes(p["parx"])
+    if w == "by_chromosome":
+        return list(a.by_chromosome())
+    if w == "drop_extra_columns":
+        return a.drop_extra_columns()
+    if w == "sort_columns":
+        c = a.copy()
+        c.sort_columns()
+        return c
+    if w == "nexus_basic":
+        from cnvlib import export
+        return export.export_nexus_basic(a)
+    if w == "add_concat":
+        c = a.copy()
+        c.add(o[1])
+        return c, a.concat([a, o[1]])
+    raise ValueError(w)
+
+
+def ch_ranges(W, t, info):
+    which = t.choice(["by_ranges", "in_ranges", "into_ranges", "in_range", "iter_ranges_of", "cut",
+                      "squash", "coords_labels"], "rg.which")
+    a = W.pick(t, "cnr", "cns", "targets", "tcov", "varr", label="rg.a")
+    b = _ga_pick(W, t, "rg.b")
+    return [a, b], {"which": which, "mode": t.choice(["outer", "inner", "trim"], "rg.mode"),
+                    "keep_empty": t.chance(1, 2, "rg.keep")}
+
+
+def run_ranges(o, p, procs):
+    a, b, w = o[0], o[1], p["which"]
+    if w == "by_ranges":
+        return [(tuple(r), sub) for r, sub in a.by_ranges(b, mode=p["mode"], keep_empty=p["keep_empty"])]
+    if w == "in_ranges":
+        return a.in_ranges(b.chromosome.iat[0], b.start[:5], b.end[:5], mode=p["mode"])
+    if w == "into_ranges":
+        col = next(c for c in ("log2", "alt_freq", "gene", "end") if c in a)
+        return a.into_ranges(b, col, default=None)
+    if w == "in_range":
+        return a.in_range(b.chromosome.iat[0], int(b.start.iat[0]), int(b.end.iat[-1]), mode=p["mode"])
+    if w == "iter_ranges_of":
+        return [x for x in a.iter_ranges_of(b, "end", mode="inner" if p["mode"] == "inner" else "outer",
+                                            keep_empty=p["keep_empty"])]
+    if w == "cut":
+        return a.cut(b)
+    if w == "squash":
+        return a.squash()
+    if w == "coords_labels":
+        return list(a.coords()), a.labels(), a.total_range_size()
+    raise ValueError(w)
+
+
+def ch_variants(W, t, info):
+    which = t.choice(["baf_by_ranges", "het_frac_by_ranges", "heterozygous", "mirrored_baf",
+                      "tumor_boost", "zygosity_from_freq", "theta_snps", "nexus_ogt"], "va.which")
+    ents = [W.pick(t, "varr", label="va.varr")]
+    if which in ("baf_by_ranges", "het_frac_by_ranges", "nexus_ogt"):
+        ents.append(W.pick(t, "cnr", "cns", label="va.ranges"))
+    return ents, {"which": which, "above_half": t.choice([None, True, False], "va.above"),
+                  "tumor_boost": t.chance(1, 2, "va.boost")}
+
+
+def run_variants(o, p, procs):
+    v, w = o[0], p["which"]
+    if w == "baf_by_ranges":
+        return v.baf_by_ranges(o[1], above_half=p["above_half"], tumor_boost=p["tumor_boost"])
+    if w == "het_frac_by_ranges":
+        return v.het_frac_by_ranges(o[1])
+    if w == "heterozygous":
+        return v.heterozygous()
+    if w == "mirrored_baf":
+        return v.mirrored_baf(p["above_half"], p["tumor_boost"])
+    if w == "tumor_boost":
+        return v.tumor_boost()
+    if w == "zygosity_from_freq":
+        return v.zygosity_from_freq(0.25, 0.75)
+    if w == "theta_snps":
+        from cnvlib import export
+        return export.export_theta_snps(v)
+    if w == "nexus_ogt":
+        from cnvlib import export
+        return export.export_nexus_ogt(o[1], v, 0.0)
+    raise ValueError(w)
 
 
 OPS = {
@@ -491,15 +671,18 @@ OPS = {
     "export_theta": (ch_export_theta, run_export_theta, None, 2, False),
     "export_seg": (ch_export_seg, run_export_seg, None, 1, False),
     "center_all": (ch_center, run_center, None, 2, False),
-    "merge": (ch_merge, run_merge, None, 1, False),
-    "flatten": (ch_flatten, run_flatten, None, 1, False),
+    "merge": (ch_merge, run_merge, None, 2, False),
+    "flatten": (ch_flatten, run_flatten, None, 2, False),
     "subtract": (ch_subtract, run_subtract, None, 1, False),
     "intersection": (ch_intersection, run_intersection, None, 1, False),
     "subdivide": (ch_subdivide, run_subdivide, None, 1, False),
     "resize": (ch_resize, run_resize, None, 1, False),
     "by_arm": (ch_by_arm, run_by_arm, None, 2, False),
-    "by_gene": (ch_by_gene, run_by_gene, None, 1, False),
+    "by_gene": (ch_by_gene, run_by_gene, None, 3, False),
     "shuffle_sort": (ch_shuffle, run_shuffle, None, 2, True),
+    "cna_method": (ch_cna_method, run_cna_method, None, 4, False),
+    "ranges": (ch_ranges, run_ranges, None, 3, False),
+    "variants": (ch_variants, run_variants, None, 3, False),
 }
 OP_NAMES = list(OPS)
 
@@ -605,7 +788,14 @@ def run_history(tape, tier, opts):
         n_steps = tape.weighted([(1, 2), (2, 3), (3, 3), (4, 3)], "hist.len")
         if opts.get("steps"):
             n_steps = int(opts["steps"])
-        weights = [(nm, OPS[nm][3]) for nm in OP_NAMES]
+        # swarm: per-run operation mix (uniform / stochastic steps favoured / array methods favoured)
+        profile = tape.weighted([("uniform", 3), ("stochastic", 2), ("arrays", 1)], "hist.profile")
+        ARRAYS = ("merge", "flatten", "subtract", "intersection", "subdivide", "resize", "by_arm",
+                  "by_gene", "cna_method", "ranges", "variants", "center_all")
+        weights = [(nm, OPS[nm][3] * (4 if (profile == "stochastic" and OPS[nm][4])
+                                      or (profile == "arrays" and nm in ARRAYS) else 1))
+                   for nm in OP_NAMES]
+        ctx.probe("profile." + profile)
         writes = _WriteTracker(rundir, ctx)
         last = None
         done_steps = []
@@ -684,6 +874,21 @@ def run_history(tape, tier, opts):
             step_digests.append(D.digest(got))
             if want_canon:
                 step_canons.append(got)
+            # echo: the same call once more, straight away, under another RNG state (and,
+            # for pooled steps, another schedule).  Always for the stochastic steps.
+            if stochastic or tape.chance(1, 3, "hist.echo"):
+                pert2 = _perturb_rng(tape, ctx)
+                result2 = _guarded(OPS[opname][1], objs, params, None)
+                d = D.diff(D.canon(result2), got)
+                if d:
+                    raise Violation("R1", f"C10/R1/{opname}/echo",
+                                    f"{opname}({', '.join(e.name for e in ents)}; {pdesc}) called twice in a "
+                                    f"row at step {step} [rng perturbation before the second call: {pert2}] "
+                                    f"returned different results: {d}")
+                _check_args(W, D, opname + "(echo)", step)
+                ctx.probe("hist.echo")
+                if stochastic and pert2 != "none":
+                    ctx.probe("rng.perturbed_before_stochastic")
             for o, e in zip(objs, ents):
                 if result is o:
                     ctx.probe("result_is_argument." + opname)
@@ -1118,48 +1323,54 @@ def extra_phases(farm, tier, args, scratch, agg):
         "plan", {}).get("calls")}]
 
     # ---- R2: hash-seed replicas ---------------------------------------------
-    n_rep = 32 if tier == "quick" else 400
-    ok_jobs = [j for j, d in sorted(agg.digests.items()) if d[0] is not None and j < 10_000_000]
-    step = max(1, len(ok_jobs) // n_rep)
-    sample = ok_jobs[::step][:n_rep]
-    base = {}
-    # per-step digests of the base population (hash seed 0) for the sample
-    jl = [{"job": j, "seed": agg.seeds[j], "want_tape": True} for j in sample]
-    for j, r in farm.map(jl).items():
-        base[j] = r
+    # Every history of the search phase is executed once more in fresh interpreters
+    # under another PYTHONHASHSEED and compared step by step with the hash-seed-0 run
+    # (quick: all of them under one seed + a sample under a second one).
+    ok_jobs = [j for j, d in sorted(agg.digests.items()) if d[0] is not None and j < 10_000_000
+               and j in agg.step_digests]
+    plans = [("1", ok_jobs if tier == "quick" else ok_jobs[:3000]),
+             (str(2 + (args.seed * 7919) % 4000), ok_jobs[::max(1, len(ok_jobs) // (32 if tier == "quick" else 400))])]
     mismatches = 0
     compared = 0
-    seeds_used = ["1", str(1 + (args.seed * 7919) % 4000)]
-    for hs in seeds_used:
-        f2 = Farm("C10", tier, min(8, len(farm.workers)), scratch, hashseed=hs, tag=f"h{hs}-")
+    seeds_used = []
+    for hs, sample in plans:
+        if not sample:
+            continue
+        seeds_used.append(hs)
+        f2 = Farm("C10", tier, len(farm.workers), scratch, hashseed=hs, tag=f"h{hs}-")
         try:
             rep = f2.map([{"job": j, "seed": agg.seeds[j], "want_tape": True} for j in sample])
             for j in sample:
-                a, b = base.get(j), rep.get(j)
-                if not a or not b or "harness_error" in (a.get("status"), b.get("status")):
-                    out["harness_errors"].append(b or a or {"message": "replica missing"})
+                b = rep.get(j)
+                a_status, a_steps = agg.step_digests[j]
+                if not b or b.get("status") == "harness_error":
+                    out["harness_errors"].append(b or {"message": "replica missing"})
                     continue
                 compared += 1
-                if a.get("schedule_digest") != b.get("schedule_digest"):
+                if agg.digests[j][0] != b.get("schedule_digest"):
                     out["harness_errors"].append({"message": (
                         f"schedule digest of seed {agg.seeds[j]} differs under PYTHONHASHSEED={hs}")})
                     continue
-                if a.get("status") != "ok" or b.get("status") != "ok":
-                    if a.get("status") != b.get("status"):
-                        mismatches += 1
-                        out["violations"].append(_r2_violation(agg.seeds[j], hs, "verdict differs", b, a))
+                if a_status == b.get("status") and (a_status != "ok" or a_steps == b.get("step_digests")):
                     continue
-                if a.get("step_digests") == b.get("step_digests"):
+                # verdict or digests differ: fetch canonical results and compare with tolerance
+                ra = farm.map([{"job": j, "seed": agg.seeds[j], "want_tape": True,
+                                "opts": {"want_canon": True}}])[j]
+                rb = f2.map([{"job": j, "seed": agg.seeds[j], "want_tape": True,
+                              "opts": {"want_canon": True}}])[j]
+                if ra.get("status") != rb.get("status"):
+                    mismatches += 1
+                    out["violations"].append(_r2_violation(agg.seeds[j], hs, "verdict differs", rb, ra))
                     continue
-                # digests differ: fetch canonical results and compare with tolerance
-                ra = farm.map([{"job": j, "seed": agg.seeds[j], "opts": {"want_canon": True}}])[j]
-                rb = f2.map([{"job": j, "seed": agg.seeds[j], "opts": {"want_canon": True}}])[j]
+                if ra.get("status") != "ok":
+                    continue
                 d = _diff_canons(ra, rb, D)
                 if d:
                     mismatches += 1
                     out["violations"].append(_r2_violation(agg.seeds[j], hs, d, rb, ra))
         finally:
             f2.close()
+    sample = ok_jobs
     out["r2_hashseed_replicas"] = {"tapes": len(sample), "hashseeds": ["0"] + seeds_used,
                                    "comparisons": compared, "mismatches": mismatches}
     return out
